@@ -18,6 +18,7 @@ ASSUMPTIONS = [
     "boost round-trip tolerance scales with gamma^2 (conditioning of the Lorentz boost in floating point)",
     "azimuthal angles are compared as exp(i phi) (phi is defined modulo 2 pi)",
     "reference boosts, masses and helicity cosines are the harness's numpy code (vlib/kin.py)",
+    "four-vector components are exactly 0 or at least 1e-8 in magnitude (squares of denormal-scale components underflow)",
 ]
 
 
@@ -52,6 +53,8 @@ def vector_laws(ctx, case):
     from tf_pwa.angle import LorentzVector as lv
 
     p = _vec_from(case)
+    if np.any((p != 0) & (np.abs(p) < 1e-8)):
+        return {"skip": "component_below_physical_scale"}
     beta = _beta(case)
     speed = float(np.linalg.norm(beta))
     gamma = 1.0 / math.sqrt(1 - speed * speed)
@@ -126,11 +129,12 @@ def vector_laws(ctx, case):
     return {"nontrivial": speed > 0.5, "classes": cls}
 
 
-comp = st.floats(-5, 5)
+# components are exactly 0 or of a physical scale (squares of 1e-153 underflow; not a kinematic statement)
+comp = st.floats(-5, 5).map(lambda x: 0.0 if abs(x) < 1e-8 else x)
 vec_st = st.one_of(
     st.tuples(st.just("massive"), st.floats(0.01, 5.0), comp, comp, comp),
     st.tuples(st.just("light"), st.just(0.0), comp, comp, comp.filter(lambda x: abs(x) > 1e-3)),
-    st.tuples(st.just("generic"), st.floats(-5, 5), comp, comp, comp),
+    st.tuples(st.just("generic"), comp, comp, comp, comp),
 )
 speed_st = st.one_of(
     st.floats(0.0, 0.999),
